@@ -111,6 +111,38 @@ def cmd_verify(a):
         shutil.rmtree(d, ignore_errors=True)
 
 
+def cmd_regress(a):
+    """Every seeded change against the quick check of the property it breaks."""
+    base = os.path.join(HERE, 'seeded')
+    missed = []
+    for name in sorted(os.listdir(base)):
+        mp = os.path.join(base, name, 'meta.json')
+        if not os.path.exists(mp):
+            continue
+        prop = json.load(open(mp)).get('property', name)
+        d = scratch_copy(name)
+        try:
+            rc, out, err = sh(['patch', '-p1', '--no-backup-if-mismatch', '-i',
+                               os.path.join(base, name, 'patch.diff')], cwd=d)
+            if rc != 0:
+                print(name, 'PATCH DOES NOT APPLY')
+                missed.append(name)
+                continue
+            env = dict(os.environ)
+            env['RSOME_VERIF_REPO'] = d
+            rc, out, err = sh([os.path.join(HERE, 'check'), prop, '--tier', a.tier,
+                               '--no-evidence'], cwd=HERE, env=env, timeout=7200)
+            mech = [ln for ln in out.split('\n') if ln.startswith('violation mech')]
+            print(name, prop, 'VIOLATION' if rc == 1 else 'HELD' if rc == 0 else 'INCONCLUSIVE',
+                  mech[0][22:160] if mech else '')
+            if rc != 1:
+                missed.append(name)
+        finally:
+            shutil.rmtree(d, ignore_errors=True)
+    print('missed:', missed)
+    sys.exit(1 if missed else 0)
+
+
 def main():
     ap = argparse.ArgumentParser()
     sub = ap.add_subparsers(dest='cmd')
@@ -123,8 +155,10 @@ def main():
     v.add_argument('--tests', action='store_true')
     v.add_argument('--checks', default=None)
     v.add_argument('--tier', default='quick')
+    r = sub.add_parser('regress')
+    r.add_argument('--tier', default='quick')
     a = ap.parse_args()
-    {'import': cmd_import, 'verify': cmd_verify}[a.cmd](a)
+    {'import': cmd_import, 'verify': cmd_verify, 'regress': cmd_regress}[a.cmd](a)
 
 
 if __name__ == '__main__':
